@@ -120,3 +120,13 @@ def targets():
                                        "analysis/drt/tr_nnls", "analysis/drt/tr_rbf", "analysis/drt/bht", "analysis/drt/lm", "analysis/drt/mrq_fit"], "data set and result observers keep no state")
     from . import frames
     return [target_algebra()] + DF.c08_targets() + [pure, c12.target_fit_process_frame(), results, frames.target_inputs_not_modified(), target_result_views()] + shared
+
+
+
+_targets_before_interpolate_c08 = targets
+
+
+def targets():      # noqa: F811
+    # shared with C19: the grid behind every result's get_frequencies(num_per_decade) / get_impedances(num_per_decade)
+    from . import c19
+    return _targets_before_interpolate_c08() + [c19.target_interpolate()]
